@@ -247,7 +247,14 @@ func RunOnce(sc Scenario, t *dsim.Tape, o Opts) (res RunResult) {
 	func() {
 		defer func() {
 			if r := recover(); r != nil {
-				x.harnessErr = fmt.Sprintf("panic outside the simulation: %v\n%s", r, debug.Stack())
+				st := string(debug.Stack())
+				if top := panicOrigin(st); top != "" {
+					// sequential checks call the code under test directly: a panic that originates in
+					// the repository's own code is a finding about that code, not a harness failure
+					x.Failf("panic", "panic in "+top, "%v\n%s", r, clipStack(st, 2400))
+				} else {
+					x.harnessErr = fmt.Sprintf("panic outside the simulation: %v\n%s", r, st)
+				}
 			}
 		}()
 		dsim.NewGeneration() // simulated process-level state (pools) starts empty, as in the replay process
@@ -763,4 +770,44 @@ func mkReplay(name, prop string, opts Opts, r RunResult, tape []uint32, want dsi
 	}
 	return ReplayFile{Property: prop, Scenario: name, Tier: opts.Tier, Seed: r.Seed, RealOnly: opts.RealOnly, Tape: tape, Expect: want,
 		Notes: r.Notes, Strategy: r.Strategy, Faults: r.Faults, TraceHash: r.TraceHash, Trace: r.Trace, OrigLen: origLen, ShrinkRun: runs}
+}
+
+// panicOrigin returns the function in which a recovered panic originated if that function
+// belongs to the code under test (a non-test file under /repo), "" otherwise (harness, simulator
+// or library code panicked: a harness error).
+func panicOrigin(stack string) string {
+	lines := strings.Split(stack, "\n")
+	seen := false
+	for i := 0; i+1 < len(lines); i++ {
+		fn := strings.TrimSpace(lines[i])
+		if strings.HasPrefix(fn, "panic(") {
+			seen = true
+			i++ // its file line
+			continue
+		}
+		if !seen || fn == "" || strings.HasPrefix(fn, "/") {
+			continue
+		}
+		file := strings.TrimSpace(lines[i+1])
+		if strings.HasPrefix(fn, "runtime.") || strings.HasPrefix(file, "/usr/") || strings.Contains(file, "/go/pkg/mod/") && !strings.Contains(file, "/repo/") {
+			i++
+			continue
+		}
+		// the first frame that is neither the runtime nor a library: where the panic was raised
+		if strings.HasPrefix(file, "/repo/") && !strings.Contains(file, "_test.go") && !strings.Contains(file, "zz_verif") {
+			if k := strings.LastIndex(fn, "("); k > 0 {
+				fn = fn[:k]
+			}
+			return fn
+		}
+		return ""
+	}
+	return ""
+}
+
+func clipStack(s string, n int) string {
+	if len(s) > n {
+		return s[:n] + "..."
+	}
+	return s
 }
